@@ -429,4 +429,79 @@ example : vrpCallsWith true [(20, (30, 1))] [([(20, (60, 1))], 20), ([], 20)] = 
 /-- an override for a size that is not a table key is ignored, and such a size cannot be written (`KeyError`) -/
 example : vrpCallsWith true [(20, (30, 1))] [([(21, (60, 1))], 20), ([(21, (60, 1))], 21)] = [some (30, 1), none] := by decide
 
+
+/-! ### warm start: checkpoint key mapping -/
+
+theorem stripFirst_prefix (pat k : List Char) (hp : pat ≠ []) : stripFirst pat (pat ++ k) = k := by
+  cases pat with
+  | nil => exact absurd rfl hp
+  | cons p ps =>
+    simp only [List.cons_append, stripFirst]
+    have : (p :: ps).isPrefixOf (p :: (ps ++ k)) = true := by
+      rw [← List.cons_append]; exact List.isPrefixOf_iff_prefix.mpr (List.prefix_append _ _)
+    simp only [this, if_true]
+    simp
+
+theorem stripFirst_skip (p : Char) (ps pre rest : List Char) (h : ∀ c ∈ pre, c ≠ p) :
+    stripFirst (p :: ps) (pre ++ rest) = pre ++ stripFirst (p :: ps) rest := by
+  induction pre with
+  | nil => rfl
+  | cons c cs ih =>
+    have hc : c ≠ p := h c (by simp)
+    have hpre : (p :: ps).isPrefixOf (c :: (cs ++ rest)) = false := by
+      simp [List.isPrefixOf, Ne.symm hc]
+    simp only [List.cons_append, stripFirst, hpre]
+    rw [ih (fun x hx => h x (by simp [hx]))]
+    simp
+
+/-- **policy keys**: `policy.<name>` is mapped to `<name>`; the mapping is injective on them -/
+theorem strip_policy (name : List Char) : stripFirst policyPat (policyPat ++ name) = name :=
+  stripFirst_prefix policyPat name (by decide)
+
+theorem strip_policy_injective (a b : List Char)
+    (h : stripFirst policyPat (policyPat ++ a) = stripFirst policyPat (policyPat ++ b)) : a = b := by
+  rwa [strip_policy, strip_policy] at h
+
+/-- **baseline keys**: the greedy-rollout baseline's frozen copy `baseline.baseline.policy.<name>` is mapped to
+`baseline.baseline.<name>` — it keeps its `baseline.` prefix -/
+theorem strip_baseline (name : List Char) :
+    stripFirst policyPat ("baseline.baseline.".toList ++ (policyPat ++ name)) = "baseline.baseline.".toList ++ name := by
+  have hp : policyPat = 'p' :: "olicy.".toList := by decide
+  rw [hp]
+  rw [stripFirst_skip 'p' "olicy.".toList "baseline.baseline.".toList (('p' :: "olicy.".toList) ++ name) (by decide)]
+  rw [stripFirst_prefix ('p' :: "olicy.".toList) name (by simp)]
+
+/-- hence a baseline tensor can never land on a policy parameter (whose name does not begin with `baseline.`) -/
+theorem baseline_not_onto_policy (a b : List Char) (hb : ¬ "baseline.".toList <+: b) :
+    stripFirst policyPat ("baseline.baseline.".toList ++ (policyPat ++ a)) ≠ stripFirst policyPat (policyPat ++ b) := by
+  rw [strip_baseline, strip_policy]
+  intro h
+  apply hb
+  rw [← h]
+  refine ⟨"baseline.".toList ++ a, ?_⟩
+  have : "baseline.baseline.".toList = "baseline.".toList ++ "baseline.".toList := by decide
+  rw [this, List.append_assoc]
+
+
+/-- **warm_start_keys**: the mapping as coded (obligation on the extracted form `k.replace("policy.", "", 1)`): a policy key
+`policy.<name>` goes to `<name>`, the rollout baseline's `baseline.baseline.policy.<name>` to `baseline.baseline.<name>` -/
+theorem warm_start_keys (name : String) :
+    mapKey ("policy." ++ name) = name ∧ mapKey ("baseline.baseline.policy." ++ name) = "baseline.baseline." ++ name := by
+  have hflag : Params.genPolynetKeyMapReplaceFirst = true := by decide
+  have h1 := strip_policy name.toList
+  have h2 := strip_baseline name.toList
+  constructor
+  · simp only [mapKey, mapKeyWith, hflag, if_true, String.toList_append]
+    rw [show "policy.".toList = policyPat from rfl, h1]; simp
+  · simp only [mapKey, mapKeyWith, hflag, if_true, String.toList_append]
+    rw [show "baseline.baseline.policy.".toList = "baseline.baseline.".toList ++ policyPat by decide, List.append_assoc, h2]
+    rw [String.ofList_append, String.ofList_toList, String.ofList_toList]
+
+/-- the `split(…)[-1]` form collapses the baseline's copy onto the policy's key: the later entry of the checkpoint silently
+overwrites the trained policy tensor — the behaviour the obligation excludes -/
+example : mapKeyWith false "policy.encoder.w" = "encoder.w" ∧ mapKeyWith false "baseline.baseline.policy.encoder.w" = "encoder.w" := by decide
+example : mapKeyWith true "policy.encoder.w" = "encoder.w" ∧ mapKeyWith true "baseline.baseline.policy.encoder.w" = "baseline.baseline.encoder.w" := by decide
+/-- with the coded mapping the tensor restored into `encoder.w` is the policy's, whatever the order of the checkpoint -/
+example : sourceOf ["policy.encoder.w", "baseline.baseline.policy.encoder.w"] "encoder.w" = some "policy.encoder.w" := by decide
+
 end Rl4co.Gen.Persist
